@@ -156,6 +156,7 @@ def run(tier, seed):
             stress.append({"id": len(stress) + 1, "kind": k, "n": n, "m": m, "cap": cap})
     for _ in range(3):
         stress.append({"id": len(stress) + 1, "kind": "gencache", "n": 2, "m": 1, "cap": 0})
+        stress.append({"id": len(stress) + 1, "kind": "gencache2", "n": 2, "m": 1, "cap": 0})
     procs = [1, 2, 16] if quick else [1, 2, 3, 4, 8, 16]
     findings = [f for f in common.load_findings(PROP) if f.get("status") == "open"]
     hit = {}
